@@ -28,97 +28,6 @@ def value_chain(f, v):
     return calls, None
 
 
-def lanes_to_hex(rep, mod, fname, nbytes):
-    """uintN_to_hex: hex[2k] = half2hex(HIHALF(byte lane N-1-k)), hex[2k+1] = half2hex(LOHALF(same lane))"""
-    f = mod.fn(fname)
-    if f is None or f.decl:
-        raise AnalysisBroken('%s not found' % fname)
-    where = '%s:%d' % (f.file, f.line)
-    got = {}
-    for i in f.all_insts():
-        if i.op != 'store' or i.d.get('store_size') != 1:
-            continue
-        root, pos = trace_const(f, i.ops[1])
-        if root.k != 'arg' or root.argno != 0:
-            continue
-        calls, bottom = value_chain(f, i.ops[0])
-        names = [c for c, _ in calls]
-        lane = None
-        if bottom is not None and bottom.op == 'load':
-            r2, lane_off = trace_const(f, bottom.ops[0])
-            if r2.k == 'inst' and f.insts[r2.id].op == 'alloca':
-                lane = lane_off
-            elif nbytes == 1 and r2.k == 'arg':
-                lane = 0
-        elif bottom is None and nbytes == 1:
-            lane = 0
-        if nbytes == 1 and lane is None:
-            # uint8_to_hex(hex, in): HIHALF(in) directly on the argument
-            lane = 0
-        got[pos] = (names, lane)
-    for k in range(nbytes):
-        for h, half in ((0, 'HIHALF'), (1, 'LOHALF')):
-            p = 2 * k + h
-            names, lane = got.get(p, ([], None))
-            want_lane = nbytes - 1 - k
-            ok = names[:2] == ['half2hex', half] and lane == want_lane
-            rep.inst('R-LANES', fname, 'hex[%d]=half2hex(%s(byte %d))' % (p, half, want_lane), ok, where,
-                     None if ok else 'hex[%d] is produced by %s of byte lane %s; the most significant byte must come '
-                     'first, high nibble before low nibble' % (p, '('.join(names) or '?', lane),
-                     fact={'position': p, 'chain': names, 'lane': lane})
-    extra = [p for p in got if p >= 2 * nbytes]
-    rep.inst('R-LANES', fname, 'writes-exactly-%d-chars' % (2 * nbytes), not extra and len(got) == 2 * nbytes, where,
-             None if not extra and len(got) == 2 * nbytes else 'writes positions %s' % sorted(got))
-
-
-def hex_to_lanes(rep, mod, fname, nbytes):
-    """hex_to_uintN: byte lane N-1-k = hex2byte(hex[2k], hex[2k+1])"""
-    f = mod.fn(fname)
-    if f is None or f.decl:
-        raise AnalysisBroken('%s not found' % fname)
-    where = '%s:%d' % (f.file, f.line)
-    got = {}
-    for i in f.all_insts():
-        if i.op != 'store' or i.d.get('store_size') != 1:
-            continue
-        root, lane = trace_const(f, i.ops[1])
-        if not (root.k == 'inst' and f.insts[root.id].op == 'alloca'):
-            continue
-        ci = f.inst_of(i.ops[0])
-        if ci is None or ci.op != 'call' or ci.callee != 'hex2byte':
-            got[lane] = None
-            continue
-        pos = []
-        for a in ci.ops:
-            li = f.inst_of(a)
-            if li is not None and li.op == 'load':
-                r, p = trace_const(f, li.ops[0])
-                pos.append(p if r.k == 'arg' and r.argno == 0 else None)
-            else:
-                pos.append(None)
-        got[lane] = pos
-    if nbytes == 1 and 0 not in got:
-        # out = hex2byte(hex[0], hex[1]) returned directly
-        for r in f.returns():
-            ci = f.inst_of(r.ops[0]) if r.ops else None
-            if ci is not None and ci.op == 'call' and ci.callee == 'hex2byte':
-                pos = []
-                for a in ci.ops:
-                    li = f.inst_of(a)
-                    if li is not None and li.op == 'load':
-                        rr, pp = trace_const(f, li.ops[0])
-                        pos.append(pp if rr.k == 'arg' and rr.argno == 0 else None)
-                    else:
-                        pos.append(None)
-                got[0] = pos
-    for k in range(nbytes):
-        lane = nbytes - 1 - k
-        ok = got.get(lane) == [2 * k, 2 * k + 1]
-        rep.inst('R-LANES', fname, 'byte %d=hex2byte(hex[%d],hex[%d])' % (lane, 2 * k, 2 * k + 1), ok, where,
-                 None if ok else 'byte lane %d is assembled from hex positions %s' % (lane, got.get(lane)),
-                 fact={'lane': lane, 'positions': got.get(lane)})
-
-
 def b64_encode_rule(rep, mod):
     """index into the alphabet for each output character is the RFC 4648 bit slice of the input bytes"""
     fs = [f for f in mod.defined() if f.srcname == 'base64_encode' and len(f.params) == 3]
@@ -553,10 +462,18 @@ def run(rep, repo, tier):
         'LOHALF': FnSpec(post=[dict(name='range', then=['ret <= 15', 'ret <= byte'])]),
     }
     run_contracts(rep, 'R-HEXDIGIT', mod, [], specs)
+    import c18_lanes
+    modu = witness('w_hexascii.c', repo, inline=keep, passes=UNROLL_PASSES, opt_args=UNROLL_ARGS, out_name='w_hexascii_unrolled')
     for fname, n in (('uint8_to_hex', 1), ('uint16_to_hex', 2), ('uint32_to_hex', 4), ('uint64_to_hex', 8)):
-        lanes_to_hex(rep, mod, fname, n)
+        try:
+            c18_lanes.lanes_to_hex(rep, modu, fname, n)
+        except AnalysisBroken as e:
+            rep.defer_broken(e)
     for fname, n in (('hex_to_uint8', 1), ('hex_to_uint16', 2), ('hex_to_uint32', 4), ('hex_to_uint64', 8)):
-        hex_to_lanes(rep, mod, fname, n)
+        try:
+            c18_lanes.hex_to_lanes(rep, modu, fname, n)
+        except AnalysisBroken as e:
+            rep.defer_broken(e)
     modc = compile_ir(repo + '/igris/util/hexascii.c', repo)
     rep.units.append('igris/util/hexascii.c')
     run_contracts(rep, 'R-HEXBUF', modc, [], {
